@@ -18,6 +18,9 @@ from progcorpus import small_recipes, random_case_params, mode_of, optimize_of  
 from build import Builder  # noqa
 from gen_prog import Gen, gen_context, I, B  # noqa
 import c05_gen  # noqa
+import c05_router  # noqa
+import progcorpus  # noqa
+from c03 import store_dense_recipe  # noqa  (shared with C03: store/load-dense main routines)
 
 PROOF_FILES = ["Proofs/StackSigProof.v", "Proofs/StackSigPool.v", "Proofs/StackCheckSound.v"]
 SHAPE_CLASSES = ("shape", "frame", "label", "off-end")
@@ -30,9 +33,13 @@ def decl_sx(decl):
     return "(decl " + " ".join("(%s (%s) (%s))" % (sx(l), " ".join(a), " ".join(r)) for l, a, r in decl) + ")"
 
 
-def static_check(model, teal, decl):
+def msel_sx(msel):
+    return "(msel " + " ".join("(%s %s)" % (sx(sig), sx(bytes(sel))) for sig, sel in msel) + ")"
+
+
+def static_check(model, teal, decl, msel=()):
     """-> dict(kind=accept|reject|uncovered|fuel|parse-error|error, ...)"""
-    res = model.ask("(check %s (msel) %s)" % (decl_sx(decl), sx(teal)))
+    res = model.ask("(check %s %s %s)" % (decl_sx(decl), msel_sx(msel), sx(teal)))
     k = res[0].name if isinstance(res, list) and res else "error"
     if k == "accept":
         return {"kind": "accept", "strict": res[1][1] == S("true"), "pcs": res[2][1]}
@@ -47,8 +54,10 @@ def static_check(model, teal, decl):
     return {"kind": "error", "raw": repr(res)[:300]}
 
 
-def dyn_run(model, ctx, teal):
+def dyn_run(model, ctx, teal, msel=()):
     """-> dict(verdict, pc, cls, typed, calls, op, height) or None when the answer is not a (ran ...)"""
+    if msel:
+        ctx = tuple(ctx) + ((S("msel"),) + tuple((sig, bytes(sel)) for sig, sel in msel),)
     res = model.ask("(run5 %s %s)" % (sx(ctx), sx(teal)))
     if not isinstance(res, list) or not res or res[0] != S("ran"):
         return None
@@ -173,15 +182,54 @@ class Case:
                 "teal": self.real[1].split("\n") if self.real and self.real[0] == "ok" else repr(self.real), "decl": self.decl}
 
 
+class DenseCase(Case):
+    """A store/load-dense main routine (c03.store_dense_recipe), compiled through progcorpus.compile_case so that the
+    faithful Coq compile model (main binary) sees the same recipe: its known-finding class is decided by the model."""
+
+    def __init__(self, main_model, recipe, reserve, version, app, ss, fp):
+        super().__init__("dense", recipe, [], version, app, ss, fp)
+        self.main_model, self.reserve, self.pc = main_model, dict(reserve), None
+
+    def compile(self, pt, ss="same"):
+        ss_ = self.ss if ss == "same" else ss
+
+        def prepare(b):
+            for k, i in self.reserve.items():
+                b.request_slot(k, i)
+        pc = progcorpus.compile_case(pt, self.main_model, self.recipe, self.version, self.app, ss_, self.fp, prepare=prepare)
+        if ss == "same":
+            self.pc = pc
+        return pc.real
+
+    def model_known_orphan(self):
+        """the coordinator's class: the model reproduces the real text exactly AND its optimiser deletes orphan stores"""
+        pc = self.pc
+        if pc is None or pc.real[0] != "ok" or progcorpus.same_outcome(pc) is not True:
+            return False
+        r = self.main_model.ask("(opt-orphans %s %s)" % (pc.wire_opts, pc.wire_prog))
+        return isinstance(r, list) and bool(r) and r[0] == S("ok") and len(r) > 1
+
+    def describe(self):
+        d = super().describe()
+        d["reserve"] = self.reserve
+        d["model_text_equal"] = progcorpus.same_outcome(self.pc) if self.pc is not None else None
+        return d
+
+
 def classify_known(ck, pt, model, c, st):
     """Which known finding (if any) explains a rejected / misbehaving case?  Class predicates only."""
     if c.has_ctrl_in_operand():
         f = ck.match_known(lambda f: f["id"] == "ctrl-in-operand")
         if f:
             return f
+    if isinstance(c, DenseCase):
+        # class decided by the faithful compile model, so that a changed optimiser is never mistaken for the pinned one
+        if c.optimiser_on() and c.model_known_orphan():
+            return ck.match_known(lambda f: f["id"] == "optimizer-orphan-store")
+        return None
     if c.optimiser_on() and optimiser_orphans(pt, lambda: c.compile(pt)):
         r = c.compile(pt, ss=False)
-        if r[0] == "ok" and static_check(model, r[1], c.declare(r[1]))["kind"] == "accept":
+        if r[0] == "ok" and static_check(model, r[1], c.declare(r[1]), c.msel(r[1]) if hasattr(c, "msel") else ())["kind"] == "accept":
             f = ck.match_known(lambda f: f["id"] == "optimizer-orphan-store")
             if f:
                 return f
@@ -275,18 +323,24 @@ def replay(path):
     rc = 0
     case = data.get("case")
     if case and isinstance(case.get("teal"), list):
-        st = static_check(model, "\n".join(case["teal"]), [tuple(d) for d in case["decl"]])
+        msel = [(sig, bytes.fromhex(h)) for sig, h in case.get("msel", [])]
+        st = static_check(model, "\n".join(case["teal"]), [tuple(d) for d in case["decl"]], msel)
         print("stored TEAL  :", st)
         rc = 1 if st["kind"] == "reject" else rc
         if "ctx" in data:
-            d = dyn_run(model, parse_sx(data["ctx"]), "\n".join(case["teal"]))
+            d = dyn_run(model, parse_sx(data["ctx"]), "\n".join(case["teal"]), msel)
             print("stored run   :", d)
             if d and (d["cls"] in SHAPE_CLASSES):
                 rc = 1
-        c = Case(case["kind"], eval(case["recipe"]), eval(case["subdefs"]), case["version"], case["mode"] == "app", case["scratch_slots"], case["frame_pointers"])
+        if case["kind"] == "router":
+            c = c05_router.RouterCase(case["router"], case["which"], case["version"], case["scratch_slots"], case["frame_pointers"])
+        elif case["kind"] == "dense":
+            c = DenseCase(Model(), eval(case["recipe"]), case.get("reserve", {}), case["version"], case["mode"] == "app", case["scratch_slots"], case["frame_pointers"])
+        else:
+            c = Case(case["kind"], eval(case["recipe"]), eval(case["subdefs"]), case["version"], case["mode"] == "app", case["scratch_slots"], case["frame_pointers"])
         c.real = c.compile(pt)
         if c.real[0] == "ok":
-            st2 = static_check(model, c.real[1], c.declare(c.real[1]))
+            st2 = static_check(model, c.real[1], c.declare(c.real[1]), c.msel(c.real[1]) if hasattr(c, "msel") else ())
             print("recompiled   :", st2)
             rc = 1 if st2["kind"] == "reject" else rc
         else:
@@ -301,7 +355,7 @@ def main(argv):
     ck = Check("C05", args.tier)
     thorough = args.tier == "thorough"
     import pyteal as pt
-    ck.run_proofs("Props/C05.v", PROOF_FILES, extra_targets=["Extract/Main_c05.vo"])
+    ck.run_proofs("Props/C05.v", PROOF_FILES, extra_targets=["Extract/Main_c05.vo", "Extract/Main.vo"])
     model = Model("c05")
     rng = ck.rng
     stats = {"accept": 0, "accept_strict": 0, "reject": 0, "uncovered": 0, "fuel": 0, "compile_error": 0, "unbuildable": 0}
@@ -325,7 +379,8 @@ def main(argv):
             return
         teal = c.real[1]
         c.decl = c.declare(teal)
-        st = static_check(model, teal, c.decl)
+        msel = c.msel(teal) if hasattr(c, "msel") else ()
+        st = static_check(model, teal, c.decl, msel)
         ck.count(("static", teal, c.version, c.app), nontrivial=True)
         key = (c.version, "app" if c.app else "sig", str(c.ss), str(c.fp))
         opt_matrix[key] = opt_matrix.get(key, 0) + 1
@@ -344,15 +399,18 @@ def main(argv):
         elif st["kind"] == "uncovered":
             stats["uncovered"] += 1
             uncovered_msgs[st["msg"]] = uncovered_msgs.get(st["msg"], 0) + 1
+            if c.kind == "router":
+                # the directed router set declares every routine PyTeal is expected to emit: an unknown one is a finding
+                problems.append(("a Router-built program contains a routine no declaration accounts for: %s at pc %s" % (st["msg"], st["pc"]),
+                                 {"kind": "static", "static": st, "case": c.describe()}))
         elif st["kind"] == "fuel":
             stats["fuel"] += 1
         else:
             ck.model_problem("checker could not read real TEAL (%s): %s" % (st["kind"], teal[:200].replace("\n", "; ")))
         # dynamic cross-check (independent of the checker's verdict)
-        for _ in range(nctx):
-            ctx = gen_context(rng, c.app)
-            ctx = ctx + ((S("boxes"), (b"b1", b"box one"), (b"b2", b"")),)
-            d = dyn_run(model, ctx, teal)
+        ctxs = c.contexts(rng) if hasattr(c, "contexts") else [gen_context(rng, c.app) + ((S("boxes"), (b"b1", b"box one"), (b"b2", b"")),) for _ in range(nctx)]
+        for ctx in ctxs:
+            d = dyn_run(model, ctx, teal, msel)
             if d is None:
                 dyn["unreadable"] = dyn.get("unreadable", 0) + 1
                 continue
@@ -391,6 +449,28 @@ def main(argv):
     # ---- known findings first (corpus of earlier failures)
     known_out = replay_known(ck, pt, model)
     ck.coverage["known_replay"] = {k: (v[0].get("kind"), v[0].get("msg")) for k, v in known_out.items()}
+
+    # ---- 0. directed: Router-built programs x versions 6..10 x OptimizeOptions matrix (approval and clear-state programs)
+    nrouter = 0
+    for c in c05_router.all_cases():
+        consider(c, 0)
+        nrouter += 1
+    ck.coverage["router_cases"] = nrouter
+    ck.coverage["router_matrix"] = "routers %s x versions 6..10 x optimize in %s x {approval, clear}" % (sorted(c05_router.ROUTERS), [o[0] for o in c05_router.OPTS])
+
+    # ---- 0b. directed: store/load-dense main routines (C03's generator) with the slot optimiser on
+    main_model = Model()
+    n_dense = 400 if thorough else 45
+    for i in range(n_dense):
+        app = rng.random() < 0.8
+        prepare, r = store_dense_recipe(rng, 6, app)
+        reserve = {}
+        for cell in (prepare.__closure__ or ()):
+            if isinstance(cell.cell_contents, dict):
+                reserve = cell.cell_contents
+        for (v, ss) in ((6, True), (9, None), (10, None)):
+            consider(DenseCase(main_model, r, reserve, v, app, ss, None), 2)
+    ck.coverage["dense_programs"] = n_dense
 
     # ---- 1. exhaustive small main-routine shapes x versions x modes
     smalls = small_recipes()
@@ -449,9 +529,13 @@ def main(argv):
     ck.coverage["disagreements_checked"] = len(problems) + stats["reject"]
     ck.coverage["programs"] = stats["accept"] + stats["reject"] + stats["uncovered"] + stats["fuel"]
     model.close()
+    main_model.close()
     return ck.finish(
         level="proof",
-        rule="programs: exhaustive small control-flow shapes x versions (main routine), seeded random main-routine programs (C01 generator, sizes 5..60, versions 2..10, "
+        rule="programs: store/load-dense main routines (c03.store_dense_recipe; scratch_slots=True at v6, default at v9/v10; known-finding class decided by the Coq compile model), "
+             "a directed set of Router-built programs (2 ARC-4 routers: ABI methods with uint64/string/bool/address/tuple arguments, void and value results, "
+             "bare create and opt-in actions, a recursive helper subroutine; approval and clear-state programs; versions 6..10 x optimize in {default, frame_pointers on/off, scratch_slots on/off}, "
+             "each method and bare action executed), exhaustive small control-flow shapes x versions (main routine), seeded random main-routine programs (C01 generator, sizes 5..60, versions 2..10, "
              "both modes, optimiser matrix, 4% with control transfer inside operands), seeded random programs with 1..5 subroutines (arity 0..4, by-value and by-reference parameters, "
              "returns none/uint64/bytes, self and mutual recursion with spilled locals, early Return, loops with Break/Continue, MaybeValue/box_get, ABI locals in frames; versions 4..10, "
              "frame pointers on/off, optimiser on/off); each real compileTeal output is checked by the extracted stack_check against the declared subroutine signatures and executed on the "
